@@ -298,6 +298,16 @@ def rand_members(rng: random.Random, depth: int, allow_7z_inside: bool, n_max: i
             continue
         used.add(m['p'])
         out.append(m)
+    if in_kind in ('tar', 'targz', 'tarbz2') and out and rng.random() < 0.2:
+        # member names as `tar -cf x.tar -C dir .` stores them ('./dir/file'), or with a doubled separator: the
+        # full archived path of a member is the name stored in the archive, not a normalised form of it
+        style = rng.choice(['dot', 'dot', 'dslash'])
+        for m in out:
+            if style == 'dot':
+                m['p'] = './' + m['p']
+            elif '/' in m['p'].rstrip('/'):
+                head, _, tail = m['p'].partition('/')
+                m['p'] = head + '//' + tail
     if in_kind == 'sevenz':
         # py7zr lists files only; keep directory entries but no two entries with the same archive name
         seen = set()
